@@ -221,6 +221,10 @@ Definition depths (t : btree) : list (nat * Q) := depths_from 0%Q t.
 Fixpoint leaf_taxa (t : btree) : list (option nat) :=
   match t with B _ _ tx ks => match ks with [] => [tx] | _ => flat_map leaf_taxa ks end end.
 
+(* all nodes (as subtrees), pre-order *)
+Fixpoint subtrees (t : btree) : list btree :=
+  match t with B _ _ _ ks => t :: flat_map subtrees ks end.
+
 (* every node has 0 or 2 children *)
 Fixpoint binaryb (t : btree) : bool :=
   match t with B _ _ _ ks => ((length ks =? 0) || (length ks =? 2)) && forallb binaryb ks end.
@@ -524,11 +528,29 @@ Definition pb_sim (N : nat) (b : Q) (script : list draw) := pb_run N b (script, 
 
 Inductive gtree : Type := G (tax : option nat) (len : option Q) (kids : list gtree).
 
+Definition g_kids (g : gtree) : list gtree := match g with G _ _ ks => ks end.
+
+Fixpoint gsubtrees (g : gtree) : list gtree :=
+  match g with G _ _ ks => g :: flat_map gsubtrees ks end.
+
+(* taxa of the leaves, left to right *)
+Fixpoint gleaf_taxa (g : gtree) : list (option nat) :=
+  match g with G x _ ks => match ks with [] => [x] | _ => flat_map gleaf_taxa ks end end.
+
 Definition lenq (o : option Q) : Q := match o with Some q => q | None => 0%Q end.
 
 (* if node.edge.length is None: node.edge.length = 0.0;  node.edge.length = node.edge.length + w *)
 Definition stretch (w : Q) (g : gtree) : gtree :=
   match g with G x l ks => G x (Some (lenq l + w)%Q) ks end.
+
+(* (taxon, height of the tip below the TOP of g's own edge) for every leaf; None counts as 0 *)
+Fixpoint gtips (g : gtree) : list (option nat * Q) :=
+  match g with G x l ks =>
+    match ks with
+    | [] => [(x, lenq l)]
+    | _ => map (fun p => (fst p, (snd p + lenq l)%Q)) (flat_map gtips ks)
+    end
+  end.
 
 (* combinatorics.choose(n, 2) *)
 Definition choose2 (n : nat) : Q := inject_Z (Z.of_nat (n * (n - 1) / 2)).
@@ -595,6 +617,29 @@ Inductive stree : Type :=
 
 Definition s_len (s : stree) := match s with SN _ _ l _ _ => l end.
 Definition s_pop (s : stree) := match s with SN _ _ _ p _ => p end.
+
+Definition s_kids (s : stree) := match s with SN _ _ _ _ ks => ks end.
+Definition s_own (s : stree) : list nat := match s with SN _ (Some l) _ _ _ => l | _ => [] end.
+
+(* gene taxa held anywhere in the subtree s *)
+Fixpoint sgenes (s : stree) : list nat :=
+  match s with SN _ g _ _ ks => (match g with Some l => l | None => [] end) ++ flat_map sgenes ks end.
+
+Fixpoint ssubtrees (s : stree) : list stree :=
+  match s with SN _ _ _ _ ks => s :: flat_map ssubtrees ks end.
+
+(* total length of the edges of c's subtree (c's own edge included) that lie above the node
+   holding gene x: the time gene x needs to leave the top of c's edge; None counts as 0 *)
+Definition up_len (c : stree) (x : nat) : Q :=
+  qsum (map (fun c' => lenq (s_len c')) (filter (fun c' => memb x (sgenes c')) (ssubtrees c))).
+
+(* "gene leaves x and y are joined in g at a node below which x sits at height h"
+   (h = path length from x up to the top of the edge of the child that contains x) *)
+Inductive joins : gtree -> nat -> nat -> Q -> Prop :=
+| j_here : forall tx l ks i j k1 k2 x y h h',
+    nth_error ks i = Some k1 -> nth_error ks j = Some k2 -> i <> j ->
+    In (Some x, h) (gtips k1) -> In (Some y, h') (gtips k2) -> joins (G tx l ks) x y h
+| j_below : forall tx l ks k x y h, In k ks -> joins k x y h -> joins (G tx l ks) x y h.
 
 (* the body of `for edge in containing_tree.postorder_edge_iter()` for a non-root edge:
    uncoal = coalesce_nodes(pop_node_genes[edge.head_node], pop_size, period=edge.length) *)
